@@ -3,7 +3,10 @@
 usage: seed_eval.py <name> <property> [<property> ...] [--tier quick|thorough]
 Applies patch.diff to /repo (git apply), runs ./check <prop> <tier>, restores /repo (git checkout -- .),
 and records the outcome in seeded/<name>/meta.json under "framework"."""
-import json, os, subprocess, sys, time
+import json, os, signal, subprocess, sys, time
+def _term(*a):
+    raise KeyboardInterrupt()
+signal.signal(signal.SIGTERM, _term)
 V = "/verif"
 name = sys.argv[1]
 tier = "quick"
